@@ -29,6 +29,7 @@ type Job struct {
 	UnwindFn   map[string]int
 	Merge      map[string]bool
 	MapPermMax int
+	MapPermFns []string // when set: symbolic map iteration order only in these functions
 	MaxSteps   int64
 	MaxPaths   int
 	Solvers    []string
